@@ -23,7 +23,7 @@ func init() {
 // justified by the checker's own ledger of wire traffic.
 func runC03(c *core.Ctx) {
 	k := drawC01Knobs(c)
-	k.trickle, k.restart = false, false
+	k.trickle = false
 	if k.blockPct > 40 {
 		k.blockPct = 40
 	}
@@ -87,6 +87,16 @@ func runC03(c *core.Ctx) {
 	for i := 0; i < extra && !c.Failed(); i++ {
 		d.S.StepFair(k.checkInterval)
 		sess.hook("connected")
+	}
+	if k.restart && !c.Failed() {
+		// a new generation: fresh credentials and sockets, the ledger judges it by its own traffic only
+		o.last = map[string]rig.PairEv{}
+		c.Probe("restart")
+		sess.restart()
+		for i := 0; i < extra && !c.Failed(); i++ {
+			d.S.StepFair(k.checkInterval)
+			sess.hook("connected")
+		}
 	}
 }
 
